@@ -130,3 +130,26 @@ Example C06_example :
   | _ => False
   end.
 Proof. vm_compute. split; reflexivity. Qed.
+
+(* "most recent template of that id" is FALSE of the faithful model when the id changes KIND
+   (known finding K_C06_kind_change): the two kinds live in two maps and the map consulted first
+   wins.  V9: options template 300, then template 300 = [InBytes/4], then data 300: decoded with
+   the stale options template.  IPFIX: template 300, then options template 300, then data 300:
+   decoded with the stale plain template. *)
+Theorem C06_kind_change_refuted :
+  (match parse_bytes true (allow_list default_allowed) empty_state ([x00; x09; x00; x01; x00; x00; x00; x01; x00; x00; x00; x02; x00; x00; x00; x01; x00; x00; x00; x04; x00; x01; x00; x14; x01; x2c; x00; x04; x00; x04; x00; x01; x00; x04; x00; x22; x00; x04; x00; x00] ++ [x00; x09; x00; x01; x00; x00; x00; x01; x00; x00; x00; x02; x00; x00; x00; x02; x00; x00; x00; x04; x00; x00; x00; x0c; x01; x2c; x00; x01; x00; x01; x00; x04] ++ [x00; x09; x00; x01; x00; x00; x00; x01; x00; x00; x00; x02; x00; x00; x00; x03; x00; x00; x00; x04; x01; x2c; x00; x08; x00; x07; x00; x64]) with
+   | Some [_; _; (PV9 p, s)] =>
+       (exists sc op pad, map fs_body (v9_sets p) = [V9OData sc op pad])
+       /\ lookup 300 (v9_t (st9 s)) <> None /\ lookup 300 (v9_o (st9 s)) <> None
+   | _ => False end)
+  /\ (match parse_bytes true (allow_list default_allowed) empty_state ([x00; x0a; x00; x1c; x00; x00; x00; x01; x00; x00; x00; x02; x00; x00; x00; x03; x00; x02; x00; x0c; x01; x2c; x00; x01; x00; x01; x00; x04] ++ [x00; x0a; x00; x22; x00; x00; x00; x01; x00; x00; x00; x02; x00; x00; x00; x03; x00; x03; x00; x12; x01; x2c; x00; x02; x00; x01; x00; x07; x00; x02; x00; x0b; x00; x02] ++ [x00; x0a; x00; x18; x00; x00; x00; x01; x00; x00; x00; x02; x00; x00; x00; x03; x01; x2c; x00; x08; x00; x07; x00; x64]) with
+      | Some [_; _; (PIx p, s)] =>
+          (exists ents pad, map is_body (ix_sets p) = [IxData ents pad])
+          /\ lookup 300 (ix_t (stx s)) <> None /\ lookup 300 (ix_o (stx s)) <> None
+      | _ => False end).
+Proof.
+  vm_compute. split; (split; [|split; discriminate]).
+  - eexists. eexists. eexists. reflexivity.
+  - eexists. eexists. reflexivity.
+Qed.
+Print Assumptions C06_kind_change_refuted.
